@@ -64,6 +64,13 @@ def make_model(d):
             th = (A @ A.T + 0.1 * np.eye(nw)) * d["scale"]
         c.train_inverse = (th + th.T) / 2
         c.stacked_data_mean = rng.normal(size=nw) * (4.0 if d.get("dtype") == "int64" else 1.0) + offset * (4.0 if d.get("dtype") == "int64" else 1.0)
+    if d.get("share") and K >= 2:
+        # two clusters with byte-identical MRFs but different means (translated regimes), or equal means but different MRFs
+        j = 1 + int(rng.integers(0, K - 1))
+        if d["share"] == "mrf":
+            st.clusters[j].train_inverse = np.array(st.clusters[0].train_inverse, copy=True)
+        else:
+            st.clusters[j].stacked_data_mean = np.array(st.clusters[0].stacked_data_mean, copy=True)
     lay = d["layout"]
     if lay == "F":
         X = np.asfortranarray(X)
@@ -135,6 +142,8 @@ def run_synth_case(res, d):
         res.violation("likelihood table function modified the data", d)
     if d.get("offset"):
         res.count("cases_with_common_offset")
+    if d.get("share") and K >= 2:
+        res.count("cases_with_clusters_sharing_" + d["share"])
     if d.get("dtype"):
         res.count("cases_with_non_float64_windows")
     # history: the same state object is given new MRFs (as the next round's optimisation does) and scored again
@@ -179,7 +188,8 @@ def gen_desc(rng, spec, i):
     T = int(rng.integers(1, 25))
     if i % 9 == 4 and nw <= 12:
         T = int(rng.choice([1000, 2048, 4097]))        # many points (block / chunk boundaries of a vectorised or threaded kernel)
-    return dict(what="synth", rng=[int(v) for v in spec["seed"]] + [i], nw=nw, W=W, K=int(rng.integers(1, 5)), T=T,
+    share = {2: "mrf", 5: "mean"}.get(i % 6)
+    return dict(what="synth", rng=[int(v) for v in spec["seed"]] + [i], nw=nw, W=W, K=int(rng.integers(2 if share else 1, 5)), T=T, share=share,
                 scale=scale, spread=float(rng.choice([0.1, 1.0, 50.0])), layout=lay,
                 theta="toeplitz" if rng.random() < 0.25 else "dense", arb=(i % 5 == 0), rescore=(i % 3 == 0),
                 offset=(float(10 ** rng.uniform(3, 7)) if i % 4 == 1 else 0.0),
@@ -219,6 +229,7 @@ def finalize(merged, tier):
     ec.min_counter(merged, out, "mpmath_arbitrations", 5 if q else 50)
     ec.min_counter(merged, out, "rescored_tables", 40 if q else 400)
     ec.min_counter(merged, out, "cases_with_common_offset", 40 if q else 400)
+    ec.min_counter(merged, out, "cases_with_clusters_sharing_mrf", 20 if q else 200)
     ec.min_counter(merged, out, "cases_with_non_float64_windows", 15 if q else 150)
     ec.unexpected(merged, out)
     out["max_dev_over_bound"] = merged["counters"].get("max_dev_over_bound_x1000", 0) / 1000.0
